@@ -162,13 +162,34 @@ def clear_of_findings(prog, rng=None):
         genv[c["n"]] = (c["t"], "val")
     counter = [0]
 
+    def is_chain(e):
+        return e["e"] in ("idx", "mem") or (e["e"] == "swz" and len(e["p"]) == 1)
+
+    def chain_dyn(e, env):
+        """e is an access chain on a VALUE that naga guards as a whole (buildRZSWBoundsCheck walks Access/AccessIndex
+        nodes down to the root, through let-bound names): some index on the way is a run-time value"""
+        dyn = False
+        while is_chain(e):
+            if e["e"] == "idx" and e["i"].get("e") != "lit":
+                dyn = True
+            e = e["a"]
+        if e["e"] == "var":
+            kind = env[e["n"]][1]
+            return kind == "valdyn" or (kind == "val" and dyn)
+        if e["e"] == "deref" or (e["e"] == "swz"):
+            return False
+        return dyn
+
     def ternary(e, env):
         """None | "select" | "index": does naga print this node as a bare ?: expression"""
         if e["e"] == "builtin" and e["f"] == "select" and ty.of(e["args"][2], env) == "bool":
             return "select"
-        if e["e"] == "idx" and e["i"].get("e") != "lit" and ty.is_value_path(e, env):
+        if is_chain(e) and chain_dyn(e, env):
             return "index"
         return None
+
+    def let_kind(e, t, env):
+        return "valdyn" if isinstance(t, list) and t[0] != "ptr" and is_chain(e) and chain_dyn(e, env) else "val"
 
     def visit(e, env, safe, out, hoist):
         """rewrites e's children in place; returns the node that replaces e.  safe: may e be a bare ternary here"""
@@ -184,9 +205,10 @@ def clear_of_findings(prog, rng=None):
             kids = [(e["args"], i, True) for i in range(len(e["args"]))]
             if e["f"] == "select":
                 kids[2] = (e["args"], 2, "selcond")
-        elif k == "idx":
-            kids = [(e, "a", False), (e, "i", True)]
-        elif k in ("mem", "swz", "deref", "addr"):
+        elif is_chain(e):
+            # the chain below is part of the same guarded expression: only its top may need hoisting
+            kids = [(e, "a", is_chain(e["a"]) or e["a"]["e"] == "var")] + ([(e, "i", True)] if k == "idx" else [])
+        elif k in ("swz", "deref", "addr"):
             kids = [(e, "a", False)]
         elif k in ("conv", "bitcast"):
             kids = [(e, "a", True)]
@@ -202,17 +224,17 @@ def clear_of_findings(prog, rng=None):
             n = "r_%d" % counter[0]
             t = ty.of(e["args"][0], env)
             out.append({"s": "let", "n": n, "t": t, "e": e["args"][0]})
-            env[n] = (t, "val")
+            env[n] = (t, let_kind(e["args"][0], t, env))
             e["args"] = [{"e": "var", "n": n} for _ in e["args"]]
         kind = ternary(e, env)
         if kind and not safe:
+            t = ty.of(e, env)
             if not hoist:
-                return e["args"][1] if kind == "select" else dict(e, i=wgslgen.lit("i32", 0))
+                return {"e": "cons", "t": t, "args": []}
             counter[0] += 1
             n = "t_%d" % counter[0]
-            t = ty.of(e, env)
             out.append({"s": "let", "n": n, "t": t, "e": e})
-            env[n] = (t, "val")
+            env[n] = (t, let_kind(e, t, env))
             return {"e": "var", "n": n}
         return e
 
@@ -257,7 +279,7 @@ def clear_of_findings(prog, rng=None):
                 block(s["body"], env)
             if k in ("let", "var"):
                 t = s["t"]
-                env[s["n"]] = (t, "ref" if k == "var" or (isinstance(t, list) and t[0] == "ptr") else "val")
+                env[s["n"]] = (t, "ref" if k == "var" or (isinstance(t, list) and t[0] == "ptr") else let_kind(s["e"], t, env))
             if pre:
                 b[i:i] = pre
                 i += len(pre)
